@@ -261,6 +261,10 @@ func (e cfgEnv) path(sym string) string {
 		return filepath.Join(e.root, "no-such-dir", "cpu.pprof")
 	case "underfile":
 		return filepath.Join(e.root, "readable.txt", "sub")
+	case "devnull": // exists, neither a directory nor a regular file (a device); used as an OutputPath only
+		return "/dev/null"
+	case "fifo": // a named pipe; used as an OutputPath only (never opened)
+		return filepath.Join(e.root, "a-named-pipe")
 	}
 	if cfgIsMutatedDataSet(sym) {
 		return e.mutatedDataSet(sym)
@@ -271,6 +275,9 @@ func (e cfgEnv) path(sym string) string {
 func (e cfgEnv) prepare() {
 	must(os.MkdirAll(filepath.Join(e.root, "existing-dir"), 0o755))
 	must(os.WriteFile(filepath.Join(e.root, "readable.txt"), []byte("just text\n"), 0o644))
+	if _, err := os.Lstat(filepath.Join(e.root, "a-named-pipe")); err != nil {
+		syscall.Mkfifo(filepath.Join(e.root, "a-named-pipe"), 0o644)
+	}
 }
 
 // ---------------------------------------------------------------- mutated copies of the shipped data sets
@@ -850,6 +857,8 @@ func (g *cfgGen) staticAlternatives(ann, mdl string) []cfgAlt {
 		cfgAlt1("S", "OutputPath", cfgP("file")), cfgAlt1("S", "OutputPath", cfgF(42420)),
 		// an existing non-directory of any content (data-set files) and a path BELOW a file (stat fails, not with not-exist)
 		cfgAlt1("S", "OutputPath", cfgP("valid")), cfgAlt1("S", "OutputPath", cfgP("badcsv")), cfgAlt1("S", "OutputPath", cfgP("underfile")),
+		// … and existing paths that are neither directories nor regular files: a device, a named pipe
+		cfgAlt1("S", "OutputPath", cfgP("devnull")), cfgAlt1("S", "OutputPath", cfgP("fifo")),
 		cfgAlt1("S", "OutputPath", cfgP("mal.valid.norows-S")), cfgAlt1("S", "OutputPath", cfgP("unl.testing.gone-G")))
 	add(cfgAlt1("S", "OutputType", cfgS("CSV")), cfgAlt1("S", "OutputType", cfgS("JSON")), cfgAlt1("S", "OutputType", cfgS("XML")), cfgAlt1("S", "OutputType", cfgS("csv")),
 		cfgAlt1("S", "OutputType", cfgI(42)), cfgAlt1("S", "OutputType", cfgS("")))
@@ -2064,6 +2073,8 @@ func cfgGenerateCases(c *Ctx, g *cfgGen) []cfgCase {
 			t("output-file", func(cc *cfgStruct) { cc.set("S", "OutputPath", cfgP("file")) })
 			t("output-dataset-file", func(cc *cfgStruct) { cc.set("S", "OutputPath", cfgP("valid")) })
 			t("output-under-file", func(cc *cfgStruct) { cc.set("S", "OutputPath", cfgP("underfile")) })
+			t("output-device", func(cc *cfgStruct) { cc.set("S", "OutputPath", cfgP("devnull")) })
+			t("output-named-pipe", func(cc *cfgStruct) { cc.set("S", "OutputPath", cfgP("fifo")) })
 			// the scenario name and the summary files: one, two and three runs, both encoders (a null-model run writes nothing anyway)
 			for ni, name := range cfgSpecialNames {
 				name, ni := name, ni
